@@ -14,16 +14,16 @@ EXTENDS Totality, TotalityValues, Json, IOUtils
 
 Obs == ndJsonDeserialize(IOEnv.TRACE_FILE)
 Codes == {Obs[1].codes[i] : i \in 1..Len(Obs[1].codes)}     \* first line: the registered error codes
-VARIABLES l, file, slice, cprog, cnode, seen
+VARIABLES l, file, slice, cprog, cnode, cdecl, seen
 Say(tid, v) == PrintT(<<"VERDICT", tid, v>>)
-others == <<gvars, pvars, yvars, vvars, rvars, kvars>>
+others == <<gvars, pvars, yvars, vvars, rvars, kvars, dvars>>
 
-TInit == l = 1 /\ GInit /\ LInit /\ PInit /\ YInit /\ VInit /\ RInit /\ KInit
-         /\ file = << >> /\ slice = "none" /\ cprog = << >> /\ cnode = NoNode /\ seen = "no"
+TInit == l = 1 /\ GInit /\ LInit /\ PInit /\ YInit /\ VInit /\ RInit /\ KInit /\ DInit
+         /\ file = << >> /\ slice = "none" /\ cprog = << >> /\ cnode = NoNode /\ cdecl = [kind |-> "none", v |-> "none"] /\ seen = "no"
 
 IndexExc == "Internal error: IndexError('list index out of range')"
 
-THeader == Obs[l].event = "Codes" /\ UNCHANGED <<lvars, file, slice, cprog, cnode, seen>>
+THeader == Obs[l].event = "Codes" /\ UNCHANGED <<lvars, file, slice, cprog, cnode, cdecl, seen>>
 TBegin ==
     /\ Obs[l].event = "Begin"
     /\ (IF life \in {"Start", "Done"} THEN TRUE ELSE Say(Obs[l].tid, "viol:PreviousCheckNotEnded"))
@@ -31,6 +31,7 @@ TBegin ==
     /\ file' = (IF Obs[l].same THEN file ELSE Obs[l].lines)       \* same = the module of the previous Begin, other configuration
     /\ cprog' = (IF Obs[l].slice = "frag" THEN Obs[l].prog ELSE << >>)
     /\ cnode' = (IF Obs[l].slice = "layout" THEN Obs[l].node ELSE NoNode)
+    /\ cdecl' = (IF Obs[l].slice = "decl" THEN Obs[l].decl ELSE [kind |-> "none", v |-> "none"])
     /\ seen' = (IF Obs[l].same THEN seen ELSE "no")   \* diagnostics identical to recorded ones of the first configuration are not repeated
 
 Verdict(o) ==
@@ -38,7 +39,8 @@ Verdict(o) ==
         impl == ImplContext(file, o.lineno, o.col)
         r == ImplShow(file, cnode, TRUE)
     IN IF o.code = "internal_error"
-       THEN IF Dev_ParamSpecSubstitution(f, o) THEN "dev:paramspec-substituted-by-non-signature"
+       THEN IF slice = "decl" /\ Dev_HashExceptionInDisplay(cdecl, o) THEN "dev:hash-exception-in-literal-display"
+            ELSE IF Dev_ParamSpecSubstitution(f, o) THEN "dev:paramspec-substituted-by-non-signature"
             ELSE "viol:InternalError"
        ELSE IF ~(o.code \in Codes) \/ o.msglen <= 0 THEN "viol:IllFormedDiagnostic"
        ELSE IF ~RefWellFormedPos(o, file)
@@ -57,7 +59,7 @@ TDiag ==
        IN /\ (IF v = "ok" THEN TRUE ELSE Say(o.tid, v))
           /\ seen' = (IF o.marker THEN "marker"
                       ELSE IF o.code = "internal_error" /\ o.exc = IndexExc /\ seen = "no" THEN "raise" ELSE seen)
-    /\ life' = "Diags" /\ ndiags' = ndiags + 1 /\ UNCHANGED <<file, slice, cprog, cnode>>
+    /\ life' = "Diags" /\ ndiags' = ndiags + 1 /\ UNCHANGED <<file, slice, cprog, cnode, cdecl>>
 TEnd ==
     /\ Obs[l].event = "End"
     /\ (IF slice = "layout" /\ ~Obs[l].skipped
@@ -66,20 +68,20 @@ TEnd ==
                 ELSE IF r.out = "diag" /\ seen # "marker" THEN Say(Obs[l].tid, "drift:marker-diagnostic-missing")
                 ELSE TRUE
         ELSE TRUE)
-    /\ life' = "Done" /\ UNCHANGED <<ndiags, file, slice, cprog, cnode, seen>>
-TRaised == Obs[l].event = "Raised" /\ Say(Obs[l].tid, "viol:CheckRaised") /\ life' = "Done" /\ UNCHANGED <<ndiags, file, slice, cprog, cnode, seen>>
+    /\ life' = "Done" /\ UNCHANGED <<ndiags, file, slice, cprog, cnode, cdecl, seen>>
+TRaised == Obs[l].event = "Raised" /\ Say(Obs[l].tid, "viol:CheckRaised") /\ life' = "Done" /\ UNCHANGED <<ndiags, file, slice, cprog, cnode, cdecl, seen>>
 TValueOp ==
     /\ Obs[l].event = "ValueOp"
     /\ LET o == Obs[l]
        IN \A i \in 1..Len(o.fails) :
              Say(o.tid, "viol:ValueOperationRaised")
-    /\ UNCHANGED <<lvars, file, slice, cprog, cnode, seen>>
+    /\ UNCHANGED <<lvars, file, slice, cprog, cnode, cdecl, seen>>
 TRtOp ==
     /\ Obs[l].event = "RtOp"
     /\ LET o == Obs[l]
        IN \A i \in 1..Len(o.fails) :
              Say(o.tid, "viol:RuntimeApiRaised")
-    /\ UNCHANGED <<lvars, file, slice, cprog, cnode, seen>>
+    /\ UNCHANGED <<lvars, file, slice, cprog, cnode, cdecl, seen>>
 
 TNext == l <= Len(Obs) /\ (THeader \/ TBegin \/ TDiag \/ TEnd \/ TRaised \/ TValueOp \/ TRtOp) /\ l' = l + 1 /\ UNCHANGED others
 =============================================================================
